@@ -7,6 +7,8 @@ import XV.Model.Ws
 import XV.Spec.Ws
 import XV.Model.DateTime
 import XV.Spec.DateTime
+import XV.Model.Duration
+import XV.Spec.Duration
 /-! Line protocol of the C09 model driver (`xvdriver dt`) and of the Spec oracle (`xvdriver dtspec`).
 Same case lines as harness/hx_dt.cpp. -/
 namespace XV.Driver.Dt
@@ -113,6 +115,22 @@ def handle (line : String) : String :=
         | some c => s!"bool {hexList c}"
         | none => "null"
       | none => "bad-op"
+  | ["DT", "duration", s] => match parseHexList s with      -- repaired parseDuration
+      | some u => match XV.Model.Duration.parseDuration true u with
+        | some d => s!"ok {d.year} {d.month} {d.day} {d.hour} {d.minute} {d.second}"
+        | none => "exc"
+      | none => "bad-op"
+  | ["DTO", "duration", s] => match parseHexList s with     -- as it stands
+      | some u => match XV.Model.Duration.parseDuration false u with
+        | some d => s!"ok {d.year} {d.month} {d.day} {d.hour} {d.minute} {d.second}"
+        | none => "exc"
+      | none => "bad-op"
+  | ["DTK", "duration", a, b] => match parseHexList a, parseHexList b with
+      | some x, some y =>
+        match XV.Model.Duration.parseDuration true x, XV.Model.Duration.parseDuration true y with
+        | some l, some r => s!"cmp {XV.Model.Duration.compareDur l r true}"
+        | _, _ => "exc"
+      | _, _ => "bad-op"
   | ["DT", k, s] => match kindOf k, parseHexList s with   -- repaired model (24:00:00 rolled over)
       | some k, some u => match XV.Model.DateTime.parseK true k u with
         | some d => s!"ok {d.year} {d.month} {d.day} {d.hour} {d.minute} {d.second}"
@@ -190,6 +208,20 @@ def handleSpec (line : String) : String :=
         | some b => s!"lex 1 val {b} can {hexList (XV.Spec.Ws.boolCanon b)}"
         | none => "lex 0"
       | none => "bad-op"
+  | ["ST", "duration", s] => match parseHexList s with      -- duration: lexical? months seconds fraction
+      | some u => match XV.Spec.Duration.parse u with
+        | some d =>
+          let fr := (d.frac.reverse.dropWhile (· == 0)).reverse
+          s!"lex 1 val {XV.Spec.Duration.monthsOf d} {XV.Spec.Duration.secondsOf d} {hexList fr}"
+        | none => "lex 0"
+      | none => "bad-op"
+  | ["STK", "duration", a, b] => match parseHexList a, parseHexList b with
+      | some x, some y =>
+        match XV.Spec.Duration.parse x, XV.Spec.Duration.parse y with
+        | some l, some r => match XV.Spec.Duration.durOrder l r with
+          | .lt => "-1" | .eq => "0" | .gt => "1" | .indeterminate => "2"
+        | _, _ => "na"
+      | _, _ => "bad-op"
   | ["ST", k, s] => match kindOf k, parseHexList s with   -- date/time: lexical+valid? instant, fraction digits, zoned
       | some k, some u => match XV.Spec.DateTime.parse k u with
         | some r =>
